@@ -1,11 +1,1240 @@
-//! C24 — not built yet (see DESIGN.md §5 C24).
+//! C24 — statement execution never panics and never silently wraps numbers (DESIGN §5 C24).
+//!
+//! Spaces (all enumerated):
+//!   A1  every statement of the corpus (`corpus::SEEDS` + `xcorpus::EXEC`) x every schema prelude
+//!   A2  (thorough) every ordered pair of statements x every prelude
+//!   B1  every template x every literal slot x every hostile value (one slot at a time)
+//!   B2  (thorough) every template x every pair of slots x every pair of hostile values
+//!   D1  deep and long statements the parser accepts (nesting <= 100, operator chains <= 10000,
+//!       10^5-element lists) executed on the `basic` prelude
+//!   C1  exact arithmetic: x∘y, x∘y∘z, -x, ABS(x) over boundary values, per integer column type,
+//!       through literal operands (AST) and through column operands
+//!   C2  SUM / AVG over every multiset of <= 3 boundary values per integer column type through the
+//!       columnar path, the row path (columnar gate forced off) and the GROUP BY path
+//! Oracle: no panic (catch_unwind) and no dead worker; afterwards every sanity query of the
+//! prelude still runs (and returns what it returned before if the statement was a read or was
+//! rejected by the parser) and a probe table can be created, written and read; for C1/C2 the
+//! result equals the i128-exact value, or is a float within 1e-12 of it (relative to the operand
+//! magnitudes), or is NULL / an error — never a wrapped or otherwise inexact integer.
 
-pub fn run(_tier: &str) -> i32 {
-    eprintln!("MACHINERY-ERROR C24 is not built yet");
-    2
+use std::collections::BTreeMap;
+use std::time::Duration;
+
+use serde_json::{json, Value};
+use vcore::exec::{self, Out};
+use vcore::report::Report;
+use vibesql_ast as ast;
+use vibesql_executor as ve;
+use vibesql_storage::Database;
+use vibesql_types::SqlValue;
+
+use crate::corpus;
+use crate::iso::{self, ChunkOut, Progress, Space};
+use crate::xcorpus::{self, Prelude, Step};
+
+/// Stack of the thread that executes statements (the Linux main-thread default).
+pub const STACK: usize = 8 << 20;
+
+// ------------------------------------------------------------------------------------------------
+// execution: dispatch of every statement kind that has an executor in the library
+
+fn unit<T>(r: Result<T, ve::ExecutorError>) -> Out {
+    match r {
+        Ok(_) => Out::Done,
+        Err(e) => Out::Err(exec::ErrClass::Other, format!("{}", e)),
+    }
 }
 
-pub fn replay(_case: &serde_json::Value) -> i32 {
-    eprintln!("MACHINERY-ERROR C24 is not built yet");
-    2
+fn dispatch(db: &mut Database, stmt: &ast::Statement) -> Out {
+    use ast::Statement as S;
+    let r = std::panic::catch_unwind(std::panic::AssertUnwindSafe(|| match stmt {
+        S::CreateDomain(s) => Some(unit(ve::DomainExecutor::execute_create_domain(s, db))),
+        S::DropDomain(s) => Some(unit(ve::DomainExecutor::execute_drop_domain(s, db))),
+        S::CreateSequence(s) => Some(unit(ve::advanced_objects::execute_create_sequence(s, db))),
+        S::DropSequence(s) => Some(unit(ve::advanced_objects::execute_drop_sequence(s, db))),
+        S::AlterSequence(s) => Some(unit(ve::advanced_objects::execute_alter_sequence(s, db))),
+        S::CreateType(s) => Some(unit(ve::advanced_objects::execute_create_type(s, db))),
+        S::DropType(s) => Some(unit(ve::advanced_objects::execute_drop_type(s, db))),
+        S::CreateCollation(s) => Some(unit(ve::advanced_objects::execute_create_collation(s, db))),
+        S::DropCollation(s) => Some(unit(ve::advanced_objects::execute_drop_collation(s, db))),
+        S::CreateCharacterSet(s) => Some(unit(ve::advanced_objects::execute_create_character_set(s, db))),
+        S::DropCharacterSet(s) => Some(unit(ve::advanced_objects::execute_drop_character_set(s, db))),
+        S::CreateTranslation(s) => Some(unit(ve::advanced_objects::execute_create_translation(s, db))),
+        S::DropTranslation(s) => Some(unit(ve::advanced_objects::execute_drop_translation(s, db))),
+        S::CreateAssertion(s) => Some(unit(ve::advanced_objects::execute_create_assertion(s, db))),
+        S::DropAssertion(s) => Some(unit(ve::advanced_objects::execute_drop_assertion(s, db))),
+        S::CreateProcedure(s) => Some(unit(ve::advanced_objects::execute_create_procedure(s, db))),
+        S::DropProcedure(s) => Some(unit(ve::advanced_objects::execute_drop_procedure(s, db))),
+        S::CreateFunction(s) => Some(unit(ve::advanced_objects::execute_create_function(s, db))),
+        S::DropFunction(s) => Some(unit(ve::advanced_objects::execute_drop_function(s, db))),
+        S::Call(s) => Some(unit(ve::advanced_objects::execute_call(s, db))),
+        S::AlterTrigger(s) => Some(unit(ve::advanced_objects::execute_alter_trigger(s, db))),
+        S::SetCatalog(s) => Some(unit(ve::SchemaExecutor::execute_set_catalog(s, db))),
+        S::SetNames(s) => Some(unit(ve::SchemaExecutor::execute_set_names(s, db))),
+        S::SetTimeZone(s) => Some(unit(ve::SchemaExecutor::execute_set_time_zone(s, db))),
+        _ => None,
+    }));
+    match r {
+        Ok(Some(o)) => o,
+        Ok(None) => exec::exec_stmt(db, stmt),
+        Err(p) => Out::Panic(exec::panic_msg(p)),
+    }
+}
+
+fn run_sql(db: &mut Database, sql: &str) -> Out {
+    match exec::parse(sql) {
+        Ok(st) => dispatch(db, &st),
+        Err(e) if e.starts_with("PANIC") => Out::Panic(e),
+        Err(e) => Out::Err(exec::ErrClass::Parse, e),
+    }
+}
+
+/// Insert one row of values through the AST.
+fn insert_row(db: &mut Database, table: &str, vals: &[SqlValue]) -> Out {
+    let stmt = ast::Statement::Insert(ast::InsertStmt {
+        table_name: table.to_uppercase(),
+        columns: vec![],
+        source: ast::InsertSource::Values(vec![vals.iter().map(|v| ast::Expression::Literal(v.clone())).collect()]),
+        conflict_clause: None,
+        on_duplicate_key_update: None,
+    });
+    dispatch(db, &stmt)
+}
+
+fn build_prelude(p: &Prelude, problems: &mut Vec<String>) -> Database {
+    let mut db = Database::new();
+    for st in &p.steps {
+        let (what, o) = match st {
+            Step::Sql(q) => (q.to_string(), run_sql(&mut db, q)),
+            Step::Row(t, vals) => (format!("row into {}", t), insert_row(&mut db, t, vals)),
+            Step::Trigger(create, body) => {
+                let o = match exec::parse(create) {
+                    Ok(ast::Statement::CreateTrigger(mut ct)) => {
+                        ct.triggered_action = ast::TriggerAction::RawSql(body.to_string());
+                        dispatch(&mut db, &ast::Statement::CreateTrigger(ct))
+                    }
+                    other => Out::Err(exec::ErrClass::Parse, format!("{:?}", other.map(|_| ()))),
+                };
+                (create.to_string(), o)
+            }
+        };
+        if !o.is_ok() {
+            // a panic is the engine's failure (reported as a violation), anything else the harness'
+            let tag = if o.is_panic() { "PANIC " } else { "" };
+            problems.push(format!("{}prelude {}: step `{}` => {}", tag, p.name, vcore::util::trunc(&what, 80), o.brief()));
+        }
+    }
+    db
+}
+
+// ------------------------------------------------------------------------------------------------
+// usability oracle
+
+#[derive(Clone, PartialEq, Debug)]
+enum Obs {
+    Rows(Vec<Vec<vcore::val::NV>>),
+    Err,
+    Panic(String),
+}
+
+fn observe(db: &Database, sql: &str) -> Obs {
+    match exec::select(db, sql) {
+        Out::Rows(r) => Obs::Rows(vcore::val::bag(&r)),
+        Out::Panic(m) => Obs::Panic(m),
+        _ => Obs::Err,
+    }
+}
+
+struct Base {
+    db: Database,
+    /// sanity queries and what they return on the untouched prelude
+    sanity: Vec<(String, Obs)>,
+    /// outcome class of every probe statement on the untouched prelude, and the probe table's content
+    probe: Vec<&'static str>,
+    probe_rows: Obs,
+}
+
+const PROBE: &[&str] = &["CREATE TABLE zz_probe (k INT PRIMARY KEY, v VARCHAR(5))", "INSERT INTO zz_probe VALUES (1, 'a'), (2, 'b')", "UPDATE zz_probe SET v = 'c' WHERE k = 2", "DELETE FROM zz_probe WHERE k = 1"];
+
+fn base_of(db: Database) -> Base {
+    let mut tables = db.list_tables();
+    tables.sort();
+    let sanity = tables.iter().map(|t| format!("SELECT * FROM {}", t)).map(|q| (q.clone(), observe(&db, &q))).collect();
+    let mut fresh = db.clone();
+    let probe = PROBE.iter().map(|q| run_sql(&mut fresh, q).class()).collect();
+    let probe_rows = observe(&fresh, "SELECT * FROM zz_probe");
+    Base { db, sanity, probe, probe_rows }
+}
+
+fn is_read(st: &ast::Statement) -> bool {
+    match st {
+        ast::Statement::Select(s) => s.into_table.is_none() && s.into_variables.is_none(),
+        _ => false,
+    }
+}
+
+/// Some(description) if the database is not usable after `outs` were observed on it.
+/// `unchanged` = the sanity queries must return what they returned on the untouched prelude.
+fn usable_after(base: &Base, db: &mut Database, unchanged: bool) -> Option<(&'static str, String)> {
+    for (q, before) in &base.sanity {
+        let after = observe(db, q);
+        if let Obs::Panic(m) = &after {
+            return Some(("panic", format!("sanity query `{}` panics afterwards: {}", q, vcore::util::trunc(m, 200))));
+        }
+        if unchanged && &after != before {
+            return Some(("state-changed", format!("sanity query `{}` returned something else after a statement that must not change anything", q)));
+        }
+    }
+    if unchanged {
+        // the probe must work exactly as on the untouched prelude
+        for (q, want) in PROBE.iter().zip(&base.probe) {
+            let got = run_sql(db, q);
+            if got.is_panic() {
+                return Some(("panic", format!("probe `{}` panics afterwards: {}", q, got.brief())));
+            }
+            if *want != got.class() {
+                return Some(("unusable", format!("probe `{}` => {} afterwards, {} on the untouched database", q, got.brief(), want)));
+            }
+        }
+        let b = observe(db, "SELECT * FROM zz_probe");
+        if base.probe_rows != b {
+            return Some(("unusable", format!("probe table reads {:?} afterwards, {:?} on the untouched database", b, base.probe_rows)));
+        }
+    } else {
+        for q in PROBE {
+            let got = run_sql(db, q);
+            if got.is_panic() {
+                return Some(("panic", format!("probe `{}` panics afterwards: {}", q, got.brief())));
+            }
+        }
+    }
+    None
+}
+
+/// Execute `stmts` on a clone of the prelude; Some((fate, what)) on a violation.
+fn run_statements(base: &Base, stmts: &[&str], outs: &mut Vec<Out>) -> Option<(&'static str, String)> {
+    let mut db = base.db.clone();
+    let mut all_harmless = true;
+    for q in stmts {
+        let parsed = exec::parse(q);
+        let o = match &parsed {
+            Ok(st) => dispatch(&mut db, st),
+            Err(e) if e.starts_with("PANIC") => Out::Panic(e.clone()),
+            Err(e) => Out::Err(exec::ErrClass::Parse, e.clone()),
+        };
+        let harmless = match &parsed {
+            Ok(st) => is_read(st),
+            Err(_) => true,
+        };
+        all_harmless &= harmless;
+        if let Out::Panic(m) = &o {
+            let m = m.clone();
+            outs.push(o);
+            return Some(("panic", format!("`{}` panicked: {}", vcore::util::trunc(q, 200), vcore::util::trunc(&m, 300))));
+        }
+        outs.push(o);
+    }
+    usable_after(base, &mut db, all_harmless)
+}
+
+// ------------------------------------------------------------------------------------------------
+// C: exact arithmetic
+
+#[derive(Clone, Copy, Debug, PartialEq)]
+pub enum IntTy {
+    Integer,
+    Bigint,
+    Smallint,
+}
+
+impl IntTy {
+    fn name(&self) -> &'static str {
+        match self {
+            IntTy::Integer => "INTEGER",
+            IntTy::Bigint => "BIGINT",
+            IntTy::Smallint => "SMALLINT",
+        }
+    }
+    fn lit(&self, v: i64) -> SqlValue {
+        match self {
+            IntTy::Integer => SqlValue::Integer(v),
+            IntTy::Bigint => SqlValue::Bigint(v),
+            IntTy::Smallint => SqlValue::Smallint(v as i16),
+        }
+    }
+    fn values(&self) -> Vec<i64> {
+        match self {
+            IntTy::Smallint => vec![0, 1, -1, 2, -2, 181, -181, i16::MAX as i64, i16::MAX as i64 - 1, i16::MIN as i64, i16::MIN as i64 + 1],
+            _ => vec![0, 1, -1, 2, -2, 3037000500, -3037000500, i64::MAX, i64::MAX - 1, i64::MIN, i64::MIN + 1],
+        }
+    }
+}
+
+const TYPES: &[IntTy] = &[IntTy::Integer, IntTy::Bigint, IntTy::Smallint];
+const OPS: &[char] = &['+', '-', '*'];
+
+/// Arithmetic forms: (name, arity)
+const FORMS: &[(&str, usize)] = &[
+    ("neg", 1),
+    ("abs", 1),
+    ("x+y", 2),
+    ("x-y", 2),
+    ("x*y", 2),
+    ("x/y", 2),
+    ("x%y", 2),
+    ("x+y+z", 3),
+    ("x+y-z", 3),
+    ("x+y*z", 3),
+    ("x-y+z", 3),
+    ("x-y-z", 3),
+    ("x-y*z", 3),
+    ("x*y+z", 3),
+    ("x*y-z", 3),
+    ("x*y*z", 3),
+];
+
+fn bin(op: char, l: ast::Expression, r: ast::Expression) -> ast::Expression {
+    let op = match op {
+        '+' => ast::BinaryOperator::Plus,
+        '-' => ast::BinaryOperator::Minus,
+        // integer division (DIV) and MOD(x, y)
+        '/' => ast::BinaryOperator::IntegerDivide,
+        '%' => return ast::Expression::Function { name: "MOD".into(), args: vec![l, r], character_unit: None },
+        _ => ast::BinaryOperator::Multiply,
+    };
+    ast::Expression::BinaryOp { op, left: Box::new(l), right: Box::new(r) }
+}
+
+/// expression of `form` over the operand expressions, built with SQL precedence (as the parser would)
+fn form_expr(form: &str, x: ast::Expression, y: ast::Expression, z: ast::Expression) -> ast::Expression {
+    match form {
+        "neg" => ast::Expression::UnaryOp { op: ast::UnaryOperator::Minus, expr: Box::new(x) },
+        "abs" => ast::Expression::Function { name: "ABS".into(), args: vec![x], character_unit: None },
+        f if f.len() == 3 => bin(f.as_bytes()[1] as char, x, y),
+        f => {
+            let (o1, o2) = (f.as_bytes()[1] as char, f.as_bytes()[3] as char);
+            if o2 == '*' && o1 != '*' {
+                bin(o1, x, bin(o2, y, z))
+            } else {
+                bin(o2, bin(o1, x, y), z)
+            }
+        }
+    }
+}
+
+/// Exact value of `form`: (the integer if it fits in i128, the value as f64, magnitude bound M of
+/// the leaf terms). Products of three 64-bit operands need up to 190 bits, hence the fallback.
+fn form_exact(form: &str, x: i64, y: i64, z: i64) -> (Option<i128>, f64, f64) {
+    // (x / 0 and MOD(x, 0) have no value: the caller accepts only NULL / an error for them)
+    fn ap(o: char, a: Option<i128>, b: Option<i128>) -> Option<i128> {
+        let (a, b) = (a?, b?);
+        match o {
+            '+' => a.checked_add(b),
+            '-' => a.checked_sub(b),
+            '/' => if b == 0 { Some(0) } else { a.checked_div(b) },
+            '%' => if b == 0 { Some(0) } else { a.checked_rem(b) },
+            _ => a.checked_mul(b),
+        }
+    }
+    fn apf(o: char, a: f64, b: f64) -> f64 {
+        match o {
+            '+' => a + b,
+            '-' => a - b,
+            '/' => if b == 0.0 { 0.0 } else { (a / b).trunc() },
+            '%' => if b == 0.0 { 0.0 } else { a % b },
+            _ => a * b,
+        }
+    }
+    fn mag(o: char, a: f64, b: f64) -> f64 {
+        match o {
+            '*' => a * b,
+            '/' | '%' => a,
+            _ => a + b,
+        }
+    }
+    let (xi, yi, zi) = (Some(x as i128), Some(y as i128), Some(z as i128));
+    let (xf, yf, zf) = (x as f64, y as f64, z as f64);
+    let (ax, ay, az) = (xf.abs(), yf.abs(), zf.abs());
+    match form {
+        "neg" => (Some(-(x as i128)), -xf, ax),
+        "abs" => (Some((x as i128).abs()), xf.abs(), ax),
+        f if f.len() == 3 => {
+            let o = f.as_bytes()[1] as char;
+            (ap(o, xi, yi), apf(o, xf, yf), mag(o, ax, ay))
+        }
+        f => {
+            let (o1, o2) = (f.as_bytes()[1] as char, f.as_bytes()[3] as char);
+            if o2 == '*' && o1 != '*' {
+                (ap(o1, xi, ap(o2, yi, zi)), apf(o1, xf, apf(o2, yf, zf)), mag(o1, ax, mag(o2, ay, az)))
+            } else {
+                (ap(o2, ap(o1, xi, yi), zi), apf(o2, apf(o1, xf, yf), zf), mag(o2, mag(o1, ax, ay), az))
+            }
+        }
+    }
+}
+
+/// Verdict on one observed numeric result against the exact value `num/den` (`num` = None: the
+/// numerator does not fit in i128 and `approx` is the value).
+fn judge(v: &SqlValue, num: Option<i128>, den: i128, approx: f64, mag: f64) -> Result<&'static str, String> {
+    let exact_f = match num {
+        Some(n) => n as f64 / den as f64,
+        None => approx / den as f64,
+    };
+    let shown = match num {
+        Some(n) if den == 1 => n.to_string(),
+        Some(n) => format!("{}/{}", n, den),
+        None => format!("{:e}", exact_f),
+    };
+    let tol = 1e-12 * mag.max(exact_f.abs()).max(1.0);
+    let int = |i: i128, kind: &str| -> Result<&'static str, String> {
+        if num.map(|n| i * den == n).unwrap_or(false) {
+            Ok("exact")
+        } else {
+            Err(format!("{} result {} but the exact value is {}", kind, i, shown))
+        }
+    };
+    match v {
+        SqlValue::Null => Ok("null"),
+        SqlValue::Integer(i) | SqlValue::Bigint(i) => int(*i as i128, "integer"),
+        SqlValue::Smallint(i) => int(*i as i128, "smallint"),
+        SqlValue::Unsigned(u) => int(*u as i128, "unsigned"),
+        SqlValue::Numeric(f) | SqlValue::Double(f) => {
+            if (f - exact_f).abs() <= tol {
+                Ok("float")
+            } else {
+                Err(format!("float result {:e} but the exact value is {} (tolerance {:e})", f, shown, tol))
+            }
+        }
+        SqlValue::Float(f) | SqlValue::Real(f) => {
+            // single precision: 2^-23 relative
+            let tol32 = 1.2e-7 * mag.max(exact_f.abs()).max(1.0);
+            if ((*f as f64) - exact_f).abs() <= tol32 {
+                Ok("float32")
+            } else {
+                Err(format!("float32 result {:e} but the exact value is {}", f, shown))
+            }
+        }
+        other => Err(format!("non-numeric result {:?} (exact value {})", other, shown)),
+    }
+}
+
+thread_local! {
+    /// databases holding just the (empty) operand table of C1 / C2, per integer type
+    static TEMPLATE_DBS: std::cell::RefCell<BTreeMap<String, Database>> = std::cell::RefCell::new(BTreeMap::new());
+}
+
+/// A database holding only the empty table created by `ddl` (cached per thread, cloned per case).
+fn db_with_table(ddl: &str) -> Option<Database> {
+    TEMPLATE_DBS.with(|m| {
+        let mut m = m.borrow_mut();
+        if !m.contains_key(ddl) {
+            let mut db = Database::new();
+            if !run_sql(&mut db, ddl).is_ok() {
+                return None;
+            }
+            m.insert(ddl.to_string(), db);
+        }
+        m.get(ddl).cloned()
+    })
+}
+
+fn select_expr(db: &Database, expr: ast::Expression, from: Option<&str>) -> Out {
+    let text = match from {
+        Some(f) => format!("SELECT 1 {}", f),
+        None => "SELECT 1".to_string(),
+    };
+    let Ok(ast::Statement::Select(mut s)) = exec::parse(&text) else {
+        return Out::Err(exec::ErrClass::Parse, "harness select template".into());
+    };
+    s.select_list = vec![ast::SelectItem::Expression { expr, alias: None }];
+    exec::select_stmt(db, &s)
+}
+
+fn col(name: &str) -> ast::Expression {
+    ast::Expression::ColumnRef { table: None, column: name.to_string() }
+}
+
+/// One arithmetic case. path: "literal" | "column" | "where"
+fn arith_case(ty: IntTy, path: &str, form: &str, x: i64, y: i64, z: i64) -> (Out, Option<(&'static str, String)>) {
+    let (exact, approx, mag) = form_exact(form, x, y, z);
+    let o = match path {
+        "literal" => {
+            let Some(db) = db_with_table("CREATE TABLE dual (d INT)") else {
+                return (Out::Done, Some(("setup", "cannot create a database".into())));
+            };
+            let e = form_expr(form, ast::Expression::Literal(ty.lit(x)), ast::Expression::Literal(ty.lit(y)), ast::Expression::Literal(ty.lit(z)));
+            select_expr(&db, e, None)
+        }
+        _ => {
+            let Some(mut db) = db_with_table(&format!("CREATE TABLE r (id INT PRIMARY KEY, x {t}, y {t}, z {t})", t = ty.name())) else {
+                return (Out::Done, Some(("setup", "cannot create the operand table".into())));
+            };
+            let ins = insert_row(&mut db, "R", &[SqlValue::Integer(1), ty.lit(x), ty.lit(y), ty.lit(z)]);
+            if !ins.is_ok() {
+                return (Out::Err(exec::ErrClass::Other, format!("setup: {}", ins.brief())), Some(("setup", format!("cannot store the operands: {}", ins.brief()))));
+            }
+            let e = form_expr(form, col("X"), col("Y"), col("Z"));
+            if path == "column" {
+                select_expr(&db, e, Some("FROM r WHERE id = 1"))
+            } else {
+                // full scan with the expression also used in a predicate
+                let pred = ast::Expression::IsNull { expr: Box::new(e.clone()), negated: true };
+                let Ok(ast::Statement::Select(mut s)) = exec::parse("SELECT 1 FROM r") else { unreachable!() };
+                s.select_list = vec![ast::SelectItem::Expression { expr: e, alias: None }];
+                s.where_clause = Some(pred);
+                exec::select_stmt(&db, &s)
+            }
+        }
+    };
+    let verdict = match &o {
+        Out::Panic(m) => Some(("panic", format!("panicked: {}", vcore::util::trunc(m, 200)))),
+        Out::Rows(rows) => {
+            if rows.is_empty() && path == "where" {
+                None // the predicate was NULL / false: nothing returned
+            } else if rows.len() != 1 || rows[0].len() != 1 {
+                Some(("shape", format!("expected one row with one column, got {}", o.brief())))
+            } else if (form == "x/y" || form == "x%y") && y == 0 {
+                match &rows[0][0] {
+                    SqlValue::Null => None,
+                    other => Some(("wrong-value", format!("division by zero returned {:?} instead of NULL or an error", other))),
+                }
+            } else {
+                match judge(&rows[0][0], exact, 1, approx, mag) {
+                    Ok(_) => None,
+                    Err(w) => Some(("wrong-value", w)),
+                }
+            }
+        }
+        _ => None,
+    };
+    (o, verdict)
+}
+
+/// One aggregate case: SUM and AVG over `vals` (as rows of one column) through `path`.
+fn agg_case(ty: IntTy, path: &str, vals: &[i64]) -> (Vec<String>, Option<(&'static str, String)>) {
+    let Some(mut db) = db_with_table(&format!("CREATE TABLE m (g INT, v {})", ty.name())) else {
+        return (vec![], Some(("setup", "cannot create the operand table".into())));
+    };
+    let mut ok = true;
+    for v in vals {
+        ok &= insert_row(&mut db, "M", &[SqlValue::Integer(7), ty.lit(*v)]).is_ok();
+    }
+    if !ok {
+        return (vec![], Some(("setup", "cannot store the operands".into())));
+    }
+    let q = match path {
+        "group-by" => "SELECT SUM(v), AVG(v) FROM m GROUP BY g",
+        "expression" => "SELECT SUM(v + 0), AVG(v * 1) FROM m",
+        _ => "SELECT SUM(v), AVG(v) FROM m",
+    };
+    if path == "row" {
+        vibesql_types::verif::set_columnar_off(true);
+    }
+    let o = exec::select(&db, q);
+    vibesql_types::verif::set_columnar_off(false);
+    let sum: i128 = vals.iter().map(|v| *v as i128).sum();
+    let mag: f64 = vals.iter().map(|v| (*v as i128).unsigned_abs() as f64).sum();
+    let n = vals.len() as i128;
+    let mut seen = vec![o.class().to_string()];
+    let verdict = match &o {
+        Out::Panic(m) => Some(("panic", format!("panicked: {}", vcore::util::trunc(m, 200)))),
+        Out::Rows(rows) => {
+            if rows.len() != 1 || rows[0].len() != 2 {
+                Some(("shape", format!("expected one row with two columns, got {}", o.brief())))
+            } else {
+                let s = judge(&rows[0][0], Some(sum), 1, 0.0, mag);
+                let a = judge(&rows[0][1], Some(sum), n, 0.0, mag / n as f64);
+                seen.push(format!("sum:{}", s.clone().unwrap_or("wrong")));
+                seen.push(format!("avg:{}", a.clone().unwrap_or("wrong")));
+                match (s, a) {
+                    (Err(w), _) => Some(("wrong-sum", format!("SUM: {}", w))),
+                    (_, Err(w)) => Some(("wrong-avg", format!("AVG: {}", w))),
+                    _ => None,
+                }
+            }
+        }
+        _ => None,
+    };
+    (seen, verdict)
+}
+
+fn multisets_upto(n: usize, k: usize) -> Vec<Vec<usize>> {
+    let mut out = vec![];
+    for len in 1..=k {
+        out.extend(vcore::util::multisets(n, len));
+    }
+    out
+}
+
+// ------------------------------------------------------------------------------------------------
+// the space
+
+#[derive(Clone, Debug)]
+enum Case {
+    /// prelude index, statement indexes
+    A(usize, Vec<usize>),
+    /// template, (slot, hostile) substitutions
+    B(usize, Vec<(usize, usize)>),
+    /// type, path, form, operand indexes
+    C1(usize, usize, usize, [usize; 3]),
+    /// type, path, multiset index
+    C2(usize, usize, usize),
+    /// deep / long statement: family index, size index
+    D(usize, usize),
+}
+
+/// Deep and long statements that the parser accepts (nesting <= 100, chains <= 10000): execution
+/// must survive them on the stated stack. (family, sizes)
+const DEEP: &[(&str, &[usize])] = &[
+    ("add-chain", &[100, 499, 501, 999, 2000, 9999]),
+    ("mul-chain", &[100, 499, 501, 999, 2000, 9999]),
+    ("concat-chain", &[100, 501, 999, 2000, 9999]),
+    ("and-chain", &[100, 501, 999, 2000, 9999]),
+    ("or-chain", &[100, 501, 999, 2000, 9999]),
+    ("and-chain-having", &[100, 999, 2000, 9999]),
+    ("or-chain-join-on", &[100, 999, 2000, 9999]),
+    ("update-set-chain", &[100, 999, 2000, 9999]),
+    ("insert-value-chain", &[100, 999, 2000, 9999]),
+    ("check-chain", &[100, 999, 2000, 9999]),
+    ("view-chain", &[100, 999, 2000, 9999]),
+    ("comma-join", &[5, 10, 20]),
+    ("join-chain", &[5, 10, 20]),
+    ("parens", &[10, 50, 98]),
+    ("not-chain", &[10, 50, 98]),
+    ("neg-chain", &[10, 50, 98]),
+    ("case-nest", &[10, 50, 98]),
+    ("func-nest", &[10, 50, 98]),
+    ("cast-nest", &[10, 50, 98]),
+    ("subquery-nest", &[5, 20, 48]),
+    // (nested EXISTS / derived tables re-evaluate the inner query per outer row: the cost is
+    // exponential in the depth, so the depths stay small — bounded time is not part of C24)
+    ("exists-nest", &[3, 6]),
+    ("in-subquery-nest", &[5, 20, 48]),
+    ("derived-nest", &[3, 6, 10]),
+    ("cte-nest", &[5, 20, 48]),
+    ("union-chain", &[10, 50, 98]),
+    ("in-list", &[1000, 100_000]),
+    ("values-rows", &[1000, 10_000]),
+    ("select-list", &[1000, 20_000]),
+    ("order-by-list", &[100, 5000]),
+    ("group-by-list", &[100, 5000]),
+    ("case-whens", &[1000, 20_000]),
+    ("coalesce-args", &[1000, 50_000]),
+    ("create-columns", &[1000, 10_000]),
+    ("like-percent", &[3, 6]),
+];
+
+fn deep_sql(fam: &str, n: usize) -> Vec<String> {
+    let rep = |x: &str, k: usize| x.repeat(k);
+    let list = |item: &str, k: usize, sep: &str| vec![item; k].join(sep);
+    match fam {
+        "add-chain" => vec![format!("SELECT 1{} FROM w", rep(" + 1", n)), format!("SELECT a{} FROM w", rep(" + a", n))],
+        "mul-chain" => vec![format!("SELECT 1{} FROM w", rep(" * 1", n))],
+        "concat-chain" => vec![format!("SELECT 'a'{} FROM w", rep(" || 'a'", n))],
+        "and-chain" => vec![format!("SELECT a FROM t WHERE a = 1{}", rep(" AND a = 1", n)), format!("DELETE FROM t WHERE a = 9{}", rep(" AND a = 9", n))],
+        "or-chain" => vec![format!("SELECT a FROM t WHERE a = 1{}", rep(" OR a = 2", n)), format!("UPDATE t SET b = 'z' WHERE a = 9{}", rep(" OR a = 8", n))],
+        "and-chain-having" => vec![format!("SELECT b, COUNT(*) FROM t GROUP BY b HAVING COUNT(*) > 0{}", rep(" AND COUNT(*) > 0", n))],
+        "or-chain-join-on" => vec![format!("SELECT COUNT(*) FROM t JOIN u ON t.a = u.a{}", rep(" OR t.a = u.c", n))],
+        "update-set-chain" => vec![format!("UPDATE w SET a = a{}", rep(" + 0", n))],
+        "insert-value-chain" => vec![format!("INSERT INTO w VALUES (1{})", rep(" + 1", n))],
+        "check-chain" => vec![format!("CREATE TABLE zc (a INT CHECK (a > 0{}))", rep(" AND a > 0", n)), "INSERT INTO zc VALUES (1)".to_string()],
+        "view-chain" => vec![format!("CREATE VIEW zv AS SELECT a{} AS s FROM w", rep(" + 1", n)), "SELECT * FROM zv".to_string()],
+        "comma-join" => vec![format!("SELECT COUNT(*) FROM w{}", (0..n).map(|i| format!(", x AS x{}", i)).collect::<String>())],
+        "join-chain" => vec![format!("SELECT COUNT(*) FROM w{}", (0..n).map(|i| format!(" JOIN w AS w{i} ON w{i}.a = w.a", i = i)).collect::<String>())],
+        "parens" => vec![format!("SELECT {}a{} FROM w", rep("(", n), rep(")", n))],
+        "not-chain" => vec![format!("SELECT a FROM w WHERE {}a = 1", rep("NOT ", n))],
+        "neg-chain" => vec![format!("SELECT {}a FROM w", rep("- ", n))],
+        "case-nest" => vec![format!("SELECT {}a{} FROM w", rep("CASE WHEN a > 0 THEN ", n), rep(" ELSE 0 END", n))],
+        "func-nest" => vec![format!("SELECT {}a{} FROM w", rep("ABS(", n), rep(")", n)), format!("SELECT {}'x'{} FROM w", rep("UPPER(", n), rep(")", n))],
+        "cast-nest" => vec![format!("SELECT {}a{} FROM w", rep("CAST(", n), rep(" AS INTEGER)", n))],
+        "subquery-nest" => vec![format!("SELECT {}1{}", rep("(SELECT ", n), rep(")", n)), format!("SELECT {}MAX(a) FROM w{} FROM w", rep("(SELECT ", n), rep(")", n))],
+        "exists-nest" => vec![format!("SELECT a FROM w WHERE {}1{}", rep("EXISTS (SELECT 1 FROM w WHERE ", n), rep(" = 1)", n))],
+        "in-subquery-nest" => vec![format!("SELECT a FROM w WHERE {}SELECT a FROM w{}", rep("a IN (SELECT a FROM w WHERE ", n.saturating_sub(1)) + "a IN (", rep(")", n))],
+        "derived-nest" => vec![format!("SELECT * FROM {}w{}", rep("(SELECT * FROM ", n), rep(") AS d", n))],
+        "cte-nest" => vec![format!("{}SELECT a FROM w{}", rep("WITH q AS (", n), rep(") SELECT a FROM q", n))],
+        "union-chain" => vec![format!("SELECT a FROM w{}", rep(" UNION ALL SELECT a FROM w", n)), format!("SELECT a FROM w{}", rep(" UNION SELECT a FROM x", n))],
+        "in-list" => vec![format!("SELECT a FROM t WHERE a IN ({})", list("1", n, ", ")), format!("SELECT a FROM t WHERE a NOT IN ({})", (0..n).map(|i| i.to_string()).collect::<Vec<_>>().join(", "))],
+        "values-rows" => vec![format!("INSERT INTO x VALUES {}", list("(1)", n, ", ")), "SELECT COUNT(*), SUM(a) FROM x".to_string()],
+        "select-list" => vec![format!("SELECT {} FROM w", list("a", n, ", "))],
+        "order-by-list" => vec![format!("SELECT a FROM w ORDER BY {}", list("a", n, ", "))],
+        "group-by-list" => vec![format!("SELECT COUNT(*) FROM w GROUP BY {}", list("a", n, ", "))],
+        "case-whens" => vec![format!("SELECT CASE {} ELSE 0 END FROM w", list("WHEN a = 99 THEN 1", n, " "))],
+        "coalesce-args" => vec![format!("SELECT COALESCE({}, a) FROM w", list("NULL", n, ", "))],
+        "create-columns" => vec![format!("CREATE TABLE zw ({})", (0..n).map(|i| format!("c{} INT", i)).collect::<Vec<_>>().join(", ")), "INSERT INTO zw (c0) VALUES (1)".to_string(), "SELECT c0 FROM zw".to_string()],
+        "like-percent" => vec![format!("SELECT b FROM t WHERE b LIKE '{}x' OR 'aaaaaaaaaaaaaaaaaaaaaaaaaaaaaaaaaaaaaaaa' LIKE '{}b'", rep("%", n), rep("%a", n.min(40)))],
+        _ => vec![],
+    }
+}
+
+
+/// preludes on which statement *pairs* are run (A2)
+const A2_PRELUDES: &[&str] = &["basic", "indexed", "alltypes", "in-transaction", "objects"];
+const C1_PATHS: &[&str] = &["literal", "column", "where"];
+const C2_PATHS: &[&str] = &["columnar", "row", "group-by", "expression"];
+
+pub struct C24 {
+    thorough: bool,
+    stmts: Vec<(&'static str, &'static str)>,
+    preludes: Vec<Prelude>,
+    hostile: Vec<(&'static str, String)>,
+    /// section name, number of cases
+    sections: Vec<(&'static str, u64)>,
+    starts: Vec<u64>,
+    msets: Vec<Vec<Vec<usize>>>,
+    /// slot pairs per template (B2)
+    b2_pairs: Vec<Vec<(usize, usize)>>,
+    /// prefix sums for B1 / B2 per template
+    b1_starts: Vec<u64>,
+    b2_starts: Vec<u64>,
+    /// C1: per type, per form: number of operand tuples; flattened prefix
+    c1_index: Vec<(usize, usize, usize, u64)>,
+    c1_starts: Vec<u64>,
+}
+
+fn n_slots(t: usize) -> usize {
+    xcorpus::TEMPLATES[t].2.len()
+}
+
+impl C24 {
+    pub fn new(tier: &str) -> C24 {
+        let thorough = tier == "thorough";
+        let mut stmts: Vec<(&'static str, &'static str)> = corpus::SEEDS.to_vec();
+        stmts.extend_from_slice(xcorpus::EXEC);
+        let preludes = xcorpus::preludes();
+        let hostile = xcorpus::hostile(thorough);
+        let h = hostile.len() as u64;
+        let ns = stmts.len() as u64;
+        let np = preludes.len() as u64;
+
+        let mut b1_starts = vec![0u64];
+        let mut b2_starts = vec![0u64];
+        let mut b2_pairs = vec![];
+        for t in 0..xcorpus::TEMPLATES.len() {
+            let k = n_slots(t);
+            b1_starts.push(b1_starts[t] + 1 + k as u64 * h);
+            let mut pairs = vec![];
+            for a in 0..k {
+                for b in a + 1..k {
+                    pairs.push((a, b));
+                }
+            }
+            b2_starts.push(b2_starts[t] + pairs.len() as u64 * h * h);
+            b2_pairs.push(pairs);
+        }
+
+        // C1: quick = all forms for INTEGER, unary+binary forms for the other types; thorough = everything
+        let mut c1_index = vec![];
+        let mut c1_starts = vec![0u64];
+        for (ti, ty) in TYPES.iter().enumerate() {
+            let nv = ty.values().len() as u64;
+            for (pi, _) in C1_PATHS.iter().enumerate() {
+                for (fi, (_, arity)) in FORMS.iter().enumerate() {
+                    if !thorough && *arity == 3 && !(ti == 0 && pi <= 1) {
+                        continue;
+                    }
+                    let n = (0..*arity).fold(1u64, |a, _| a * nv);
+                    c1_index.push((ti, pi, fi, n));
+                    c1_starts.push(c1_starts.last().unwrap() + n);
+                }
+            }
+        }
+        let msets: Vec<Vec<Vec<usize>>> = TYPES.iter().map(|ty| multisets_upto(ty.values().len(), 3)).collect();
+        let c2: u64 = msets.iter().map(|m| m.len() as u64 * C2_PATHS.len() as u64).sum();
+
+        let d1: u64 = DEEP.iter().map(|(_, sizes)| sizes.len() as u64).sum();
+        let mut sections: Vec<(&'static str, u64)> =
+            vec![("A1", np * ns), ("D1", d1), ("B1", *b1_starts.last().unwrap()), ("C1", *c1_starts.last().unwrap()), ("C2", c2)];
+        if thorough {
+            sections.push(("A2", A2_PRELUDES.len() as u64 * ns * ns));
+            sections.push(("B2", *b2_starts.last().unwrap()));
+        }
+        let mut starts = vec![0u64];
+        for (_, n) in &sections {
+            starts.push(starts.last().unwrap() + n);
+        }
+        C24 { thorough, stmts, preludes, hostile, sections, starts, msets, b2_pairs, b1_starts, b2_starts, c1_index, c1_starts }
+    }
+
+    pub fn section_sizes(&self) -> Vec<(&'static str, u64)> {
+        self.sections.clone()
+    }
+
+    fn case(&self, idx: u64) -> Case {
+        let si = match self.starts.binary_search(&idx) {
+            Ok(mut g) => {
+                while g + 1 < self.starts.len() && self.starts[g + 1] == idx {
+                    g += 1;
+                }
+                g
+            }
+            Err(g) => g - 1,
+        };
+        let k = idx - self.starts[si];
+        let ns = self.stmts.len() as u64;
+        let h = self.hostile.len() as u64;
+        match self.sections[si].0 {
+            "A1" => Case::A((k / ns) as usize, vec![(k % ns) as usize]),
+            "A2" => {
+                let name = A2_PRELUDES[(k / (ns * ns)) as usize];
+                let p = self.preludes.iter().position(|p| p.name == name).expect("A2 prelude");
+                Case::A(p, vec![((k / ns) % ns) as usize, (k % ns) as usize])
+            }
+            "D1" => {
+                let mut r = k as usize;
+                for (fi, (_, sizes)) in DEEP.iter().enumerate() {
+                    if r < sizes.len() {
+                        return Case::D(fi, r);
+                    }
+                    r -= sizes.len();
+                }
+                unreachable!()
+            }
+            "B1" => {
+                let t = self.b1_starts.partition_point(|s| *s <= k) - 1;
+                let r = k - self.b1_starts[t];
+                if r == 0 {
+                    Case::B(t, vec![])
+                } else {
+                    let r = r - 1;
+                    Case::B(t, vec![((r / h) as usize, (r % h) as usize)])
+                }
+            }
+            "B2" => {
+                let t = self.b2_starts.partition_point(|s| *s <= k) - 1;
+                let r = k - self.b2_starts[t];
+                let (a, b) = self.b2_pairs[t][(r / (h * h)) as usize];
+                let r = r % (h * h);
+                Case::B(t, vec![(a, (r / h) as usize), (b, (r % h) as usize)])
+            }
+            "C1" => {
+                let e = self.c1_starts.partition_point(|s| *s <= k) - 1;
+                let (ti, pi, fi, _) = self.c1_index[e];
+                let nv = TYPES[ti].values().len() as u64;
+                let mut r = k - self.c1_starts[e];
+                let mut ops = [0usize; 3];
+                for d in (0..FORMS[fi].1).rev() {
+                    ops[d] = (r % nv) as usize;
+                    r /= nv;
+                }
+                Case::C1(ti, pi, fi, ops)
+            }
+            _ => {
+                let mut r = k;
+                for (ti, m) in self.msets.iter().enumerate() {
+                    let n = m.len() as u64 * C2_PATHS.len() as u64;
+                    if r < n {
+                        return Case::C2(ti, (r / m.len() as u64) as usize, (r % m.len() as u64) as usize);
+                    }
+                    r -= n;
+                }
+                unreachable!()
+            }
+        }
+    }
+
+    fn fill(&self, t: usize, subs: &[(usize, usize)]) -> String {
+        let (_, text, defaults) = xcorpus::TEMPLATES[t];
+        let mut out = text.to_string();
+        // highest slot first so that $1 does not clobber $10
+        for s in (0..defaults.len()).rev() {
+            let lit = subs.iter().find(|(slot, _)| *slot == s).map(|(_, h)| self.hostile[*h].1.as_str()).unwrap_or(defaults[s]);
+            out = out.replace(&format!("${}", s + 1), lit);
+        }
+        out
+    }
+
+    fn describe_case(&self, c: &Case) -> (Vec<(String, String)>, Value) {
+        let kv = |k: &str, v: &str| (k.to_string(), v.to_string());
+        match c {
+            Case::A(p, ss) => {
+                let mut sig = vec![kv("family", if ss.len() == 1 { "prelude-x-statement" } else { "prelude-x-statement-pair" }), kv("prelude", self.preludes[*p].name), kv("statement", self.stmts[ss[0]].0)];
+                if ss.len() > 1 {
+                    sig.push(kv("statement2", self.stmts[ss[1]].0));
+                }
+                (sig, json!({"section": "A", "prelude": self.preludes[*p].name, "statements": ss.iter().map(|i| self.stmts[*i].1).collect::<Vec<_>>()}))
+            }
+            Case::B(t, subs) => {
+                let mut sig = vec![kv("family", "hostile-literal"), kv("template", xcorpus::TEMPLATES[*t].0)];
+                sig.push(kv("slot", &subs.iter().map(|(s, _)| (s + 1).to_string()).collect::<Vec<_>>().join("+")));
+                sig.push(kv("value", &subs.iter().map(|(_, h)| self.hostile[*h].0).collect::<Vec<_>>().join("+")));
+                let sql = self.fill(*t, subs);
+                let shown = if sql.len() > 4000 { json!({"template": xcorpus::TEMPLATES[*t].0, "subs": subs.iter().map(|(s, h)| json!([s, self.hostile[*h].0])).collect::<Vec<_>>()}) } else { json!(sql) };
+                (sig, json!({"section": "B", "sql": shown, "thorough": self.thorough}))
+            }
+            Case::C1(ti, pi, fi, ops) => {
+                let vals = TYPES[*ti].values();
+                let xs: Vec<i64> = (0..FORMS[*fi].1).map(|d| vals[ops[d]]).collect();
+                (
+                    vec![kv("family", "exact-arithmetic"), kv("type", TYPES[*ti].name()), kv("path", C1_PATHS[*pi]), kv("form", FORMS[*fi].0)],
+                    json!({"section": "C1", "type": TYPES[*ti].name(), "path": C1_PATHS[*pi], "form": FORMS[*fi].0, "operands": xs.iter().map(|v| v.to_string()).collect::<Vec<_>>()}),
+                )
+            }
+            Case::D(fi, si) => (
+                vec![kv("family", "deep-statement"), kv("shape", DEEP[*fi].0), kv("size", &DEEP[*fi].1[*si].to_string())],
+                json!({"section": "D", "shape": DEEP[*fi].0, "size": DEEP[*fi].1[*si]}),
+            ),
+            Case::C2(ti, pi, mi) => {
+                let vals = TYPES[*ti].values();
+                let xs: Vec<i64> = self.msets[*ti][*mi].iter().map(|i| vals[*i]).collect();
+                (
+                    vec![kv("family", "exact-aggregate"), kv("type", TYPES[*ti].name()), kv("path", C2_PATHS[*pi])],
+                    json!({"section": "C2", "type": TYPES[*ti].name(), "path": C2_PATHS[*pi], "values": xs.iter().map(|v| v.to_string()).collect::<Vec<_>>()}),
+                )
+            }
+        }
+    }
+
+    fn run_inner(&self, from: u64, to: u64, p: &Progress) -> ChunkOut {
+        let mut out = ChunkOut::default();
+        let mut problems = vec![];
+        let bases: Vec<Base> = self.preludes.iter().map(|pr| base_of(build_prelude(pr, &mut problems))).collect();
+        let hostile_base = base_of(build_prelude(&xcorpus::hostile_prelude(), &mut problems));
+        for pr in problems {
+            if let Some(rest) = pr.strip_prefix("PANIC ") {
+                let name = rest.split(':').next().unwrap_or("prelude").trim_start_matches("prelude ").to_string();
+                out.count("fate.panic", 1);
+                out.viol(from, vec![("family".into(), "prelude".into()), ("prelude".into(), name), ("fate".into(), "panic".into())], format!("building the schema prelude panicked: {}", rest), json!({"section": "prelude", "what": rest}));
+            } else {
+                out.machinery.push(pr);
+            }
+        }
+        for idx in from..to {
+            let c = self.case(idx);
+            p.begin(idx);
+            let (fam, outcome_key, verdict): (&str, String, Option<(&'static str, String)>) = match &c {
+                Case::A(pi, ss) => {
+                    let qs: Vec<&str> = ss.iter().map(|i| self.stmts[*i].1).collect();
+                    let mut outs = vec![];
+                    let v = run_statements(&bases[*pi], &qs, &mut outs);
+                    let key = outs.iter().map(|o| o.class()).collect::<Vec<_>>().join(",");
+                    for (i, o) in outs.iter().enumerate() {
+                        out.count(&format!("A.statement.{}", o.class()), 1);
+                        if o.is_ok() {
+                            out.distinct.insert(format!("A:ok:{}", self.stmts[ss[i]].0));
+                        } else if let Out::Err(cl, _) = o {
+                            out.distinct.insert(format!("A:err:{:?}:{}", cl, self.preludes[*pi].name));
+                        }
+                    }
+                    (if ss.len() == 1 { "A1" } else { "A2" }, key, v)
+                }
+                Case::D(fi, si) => {
+                    let (fam, sizes) = DEEP[*fi];
+                    let stmts = deep_sql(fam, sizes[*si]);
+                    let qs: Vec<&str> = stmts.iter().map(|s| s.as_str()).collect();
+                    let basic = self.preludes.iter().position(|p| p.name == "basic").expect("basic prelude");
+                    let mut outs = vec![];
+                    let v = run_statements(&bases[basic], &qs, &mut outs);
+                    let key = outs.iter().map(|o| o.class()).collect::<Vec<_>>().join(",");
+                    out.count(&format!("D.statement.{}", outs.first().map(|o| o.class()).unwrap_or("none")), 1);
+                    out.distinct.insert(format!("D:{}:{}", fam, key));
+                    ("D1", key, v)
+                }
+                Case::B(t, subs) => {
+                    let sql = self.fill(*t, subs);
+                    let mut outs = vec![];
+                    let v = run_statements(&hostile_base, &[&sql], &mut outs);
+                    let o = &outs[0];
+                    out.count(&format!("B.statement.{}", o.class()), 1);
+                    out.distinct.insert(format!("B:{}:{}", xcorpus::TEMPLATES[*t].0, o.class()));
+                    (if subs.len() <= 1 { "B1" } else { "B2" }, o.class().to_string(), v)
+                }
+                Case::C1(ti, pi, fi, ops) => {
+                    let vals = TYPES[*ti].values();
+                    let (o, v) = arith_case(TYPES[*ti], C1_PATHS[*pi], FORMS[*fi].0, vals[ops[0]], vals[ops[1]], vals[ops[2]]);
+                    let kind = match &o {
+                        Out::Rows(r) if r.len() == 1 && r[0].len() == 1 => match &r[0][0] {
+                            SqlValue::Null => "null",
+                            SqlValue::Integer(_) | SqlValue::Bigint(_) | SqlValue::Smallint(_) | SqlValue::Unsigned(_) => "integer",
+                            _ => "float",
+                        },
+                        Out::Rows(_) => "norow",
+                        Out::Err(..) => "error",
+                        _ => "other",
+                    };
+                    out.count(&format!("C1.result.{}", kind), 1);
+                    out.distinct.insert(format!("C1:{}:{}:{}", TYPES[*ti].name(), FORMS[*fi].0, kind));
+                    ("C1", kind.to_string(), v)
+                }
+                Case::C2(ti, pi, mi) => {
+                    let vals = TYPES[*ti].values();
+                    let xs: Vec<i64> = self.msets[*ti][*mi].iter().map(|i| vals[*i]).collect();
+                    let before = vibesql_types::verif::snapshot().iter().find(|(k, _)| *k == "columnar_taken").map(|(_, v)| *v).unwrap_or(0);
+                    let (seen, v) = agg_case(TYPES[*ti], C2_PATHS[*pi], &xs);
+                    let after = vibesql_types::verif::snapshot().iter().find(|(k, _)| *k == "columnar_taken").map(|(_, v)| *v).unwrap_or(0);
+                    out.count(&format!("C2.columnar_taken.{}", C2_PATHS[*pi]), after - before);
+                    for s in &seen {
+                        out.count(&format!("C2.{}", s), 1);
+                        out.distinct.insert(format!("C2:{}:{}", C2_PATHS[*pi], s));
+                    }
+                    ("C2", seen.join(","), v)
+                }
+            };
+            out.evaluated += 1;
+            out.count(&format!("cases.{}", fam), 1);
+            if out.samples.len() < 64 {
+                let (_, cj) = self.describe_case(&c);
+                out.samples.push(json!({"key": format!("{}:{}", fam, outcome_key), "case": cj, "observed": outcome_key}));
+            }
+            if let Some((fate, what)) = verdict {
+                if fate == "setup" {
+                    out.machinery.push(format!("case {}: {}", idx, what));
+                    continue;
+                }
+                // re-execute twice from scratch
+                let again: Vec<bool> = (0..2).map(|_| self.verdict_of(&c, &bases, &hostile_base).map(|(f, _)| f == fate).unwrap_or(false)).collect();
+                if again.iter().all(|x| *x) {
+                    let (mut sig, cj) = self.describe_case(&c);
+                    sig.push(("fate".into(), fate.into()));
+                    out.count(&format!("fate.{}", fate), 1);
+                    out.viol(idx, sig, what, cj);
+                } else {
+                    // the engine's hash maps are randomly seeded: a verdict that does not recur is
+                    // recorded, not reported
+                    out.count("verdict_not_reproduced", 1);
+                }
+            }
+        }
+        p.begin(u64::MAX);
+        out
+    }
+
+    fn verdict_of(&self, c: &Case, bases: &[Base], hostile_base: &Base) -> Option<(&'static str, String)> {
+        match c {
+            Case::A(pi, ss) => {
+                let qs: Vec<&str> = ss.iter().map(|i| self.stmts[*i].1).collect();
+                run_statements(&bases[*pi], &qs, &mut vec![])
+            }
+            Case::D(fi, si) => {
+                let (fam, sizes) = DEEP[*fi];
+                let stmts = deep_sql(fam, sizes[*si]);
+                let qs: Vec<&str> = stmts.iter().map(|s| s.as_str()).collect();
+                let basic = self.preludes.iter().position(|p| p.name == "basic").expect("basic prelude");
+                run_statements(&bases[basic], &qs, &mut vec![])
+            }
+            Case::B(t, subs) => {
+                let sql = self.fill(*t, subs);
+                run_statements(hostile_base, &[&sql], &mut vec![])
+            }
+            Case::C1(ti, pi, fi, ops) => {
+                let vals = TYPES[*ti].values();
+                arith_case(TYPES[*ti], C1_PATHS[*pi], FORMS[*fi].0, vals[ops[0]], vals[ops[1]], vals[ops[2]]).1
+            }
+            Case::C2(ti, pi, mi) => {
+                let vals = TYPES[*ti].values();
+                let xs: Vec<i64> = self.msets[*ti][*mi].iter().map(|i| vals[*i]).collect();
+                agg_case(TYPES[*ti], C2_PATHS[*pi], &xs).1
+            }
+        }
+    }
+}
+
+impl Space for C24 {
+    fn total(&self) -> u64 {
+        *self.starts.last().unwrap()
+    }
+    fn chunk(&self) -> u64 {
+        if self.thorough {
+            40_000
+        } else {
+            2_500
+        }
+    }
+    fn case_deadline(&self) -> Duration {
+        Duration::from_secs(600)
+    }
+    fn cpu_limit(&self) -> Duration {
+        Duration::from_secs(60)
+    }
+    fn address_space(&self) -> u64 {
+        4 << 30
+    }
+    fn run(&self, from: u64, to: u64, p: &Progress) -> ChunkOut {
+        std::thread::scope(|s| {
+            let h = std::thread::Builder::new().stack_size(STACK).spawn_scoped(s, || self.run_inner(from, to, p)).expect("spawn executor thread");
+            match h.join() {
+                Ok(o) => o,
+                Err(pl) => {
+                    let mut o = ChunkOut::default();
+                    o.machinery.push(format!("harness thread panicked: {}", exec::panic_msg(pl)));
+                    o
+                }
+            }
+        })
+    }
+    fn describe(&self, idx: u64) -> (Vec<(String, String)>, Value) {
+        self.describe_case(&self.case(idx))
+    }
+}
+
+pub fn space(tier: &str) -> C24 {
+    C24::new(tier)
+}
+
+pub fn run(tier: &str) -> i32 {
+    let mut rep = Report::new("C24", tier, "exploration");
+    let sp = C24::new(tier);
+    let budget = Duration::from_secs(if sp.thorough { 600 } else { 120 });
+    let all = iso::drive(&sp, &mut rep, budget);
+    let pick = |p: &str| -> BTreeMap<String, u64> { all.counters.iter().filter(|(k, _)| k.starts_with(p)).map(|(k, v)| (k.clone(), *v)).collect() };
+    println!("C24 {}: {} cases; per section {:?}", tier, all.evaluated, pick("cases."));
+    println!("C24 statements: A {:?} B {:?} D {:?}", pick("A.statement."), pick("B.statement."), pick("D.statement."));
+    println!("C24 exact arithmetic results: {:?}; aggregates: {:?}", pick("C1.result."), pick("C2."));
+    println!("C24 fates: {:?}; verdicts not reproduced: {}", pick("fate."), all.counters.get("verdict_not_reproduced").copied().unwrap_or(0));
+    let vac: Vec<String> = ["C2.columnar_taken.columnar"].iter().filter(|k| all.counters.get(**k).copied().unwrap_or(0) == 0).map(|k| k.to_string()).collect();
+    if !vac.is_empty() {
+        eprintln!("WARNING C24: mechanisms expected but not reached: {:?}", vac);
+    }
+    rep.set("vacuous_mechanisms", json!(vac));
+    rep.set(
+        "bounds",
+        json!({
+            "statements": sp.stmts.len(),
+            "preludes": sp.preludes.iter().map(|p| p.name).collect::<Vec<_>>(),
+            "statement_pairs_on_preludes": if sp.thorough { json!(A2_PRELUDES) } else { json!([]) },
+            "templates": xcorpus::TEMPLATES.len(),
+            "literal_slots": xcorpus::TEMPLATES.iter().map(|t| t.2.len()).sum::<usize>(),
+            "hostile_values": sp.hostile.iter().map(|h| h.0).collect::<Vec<_>>(),
+            "hostile_slots_at_a_time": if sp.thorough { 2 } else { 1 },
+            "integer_types": TYPES.iter().map(|t| t.name()).collect::<Vec<_>>(),
+            "boundary_values": TYPES.iter().map(|t| json!({t.name(): t.values().iter().map(|v| v.to_string()).collect::<Vec<_>>()})).collect::<Vec<_>>(),
+            "arithmetic_forms": FORMS.iter().map(|f| f.0).collect::<Vec<_>>(),
+            "arithmetic_paths": C1_PATHS,
+            "aggregate_paths": C2_PATHS,
+            "aggregate_multiset_max": 3,
+            "sections": sp.sections.iter().map(|(n, c)| json!({*n: c})).collect::<Vec<_>>(),
+            "deep_statement_families": DEEP.iter().map(|(f, sizes)| json!({*f: sizes})).collect::<Vec<_>>(),
+            "executor_stack_bytes": STACK,
+        }),
+    );
+    rep.set("reach", json!({"columnar_path_taken": pick("C2.columnar_taken."), "statement_outcomes": {"A": pick("A.statement."), "B": pick("B.statement.")}, "arithmetic_result_kinds": pick("C1.result."), "aggregate_result_kinds": pick("C2.")}));
+    rep.set(
+        "rule",
+        json!("A: every corpus statement (pairs in thorough) on a clone of every schema prelude; B: every template with one (thorough: two) literal slot(s) replaced by every hostile value; C1: every arithmetic form over every operand tuple of the boundary values per integer type through literal, column and predicate evaluation; C2: SUM/AVG over every multiset of <=3 boundary values through the columnar, row, GROUP BY and expression-aggregate paths. Each case runs in a worker subprocess under catch_unwind. Oracle: no panic, no dead worker, no blown deadline; afterwards every sanity query (SELECT * of every prelude table) runs without panic, returns what it returned before if the statement was a plain SELECT or a parse error, and a probe table can be created, written and read; C1/C2: the result is value-equal to the i128-exact value, or a float within 1e-12 x max(|exact|, sum of operand magnitudes), or NULL, or an error. distinct_nontrivial = distinct (section, statement/template/form, outcome class) observed"),
+    );
+    rep.assume("release profile of the harness workspace (overflow-checks off): a wrapped result is observed as a wrong value, not as a panic");
+    rep.assume("statements run on a thread with an 8 MiB stack; error messages and error kinds are not compared");
+    rep.assume("a failed INSERT/UPDATE/DELETE/DDL that leaves partial effects is C11's concern: after such a statement only usability (no panic, probe works) is demanded, not an unchanged state");
+    rep.finish()
+}
+
+pub fn replay(case: &Value) -> i32 {
+    // re-executed in a child process (the case may abort the process)
+    let tmp = format!("/tmp/total-replay-{}.json", std::process::id());
+    if std::fs::write(&tmp, case.to_string()).is_err() {
+        return 2;
+    }
+    let exe = std::env::current_exe().expect("exe");
+    let st = std::process::Command::new(exe).args(["c24-one", &tmp]).status();
+    let _ = std::fs::remove_file(&tmp);
+    match st {
+        Ok(s) if s.code() == Some(0) => {
+            println!("observed: property holds on this case");
+            0
+        }
+        Ok(s) if s.code() == Some(1) => {
+            println!("observed: VIOLATION reproduced");
+            1
+        }
+        Ok(s) if s.code() == Some(2) => 2,
+        Ok(s) => {
+            println!("observed: the process died ({}) — VIOLATION reproduced", s);
+            1
+        }
+        Err(_) => 2,
+    }
+}
+
+fn parse_ty(s: &str) -> Option<IntTy> {
+    TYPES.iter().copied().find(|t| t.name() == s)
+}
+
+/// `totalcheck c24-one <file>`
+pub fn one(path: &str) -> i32 {
+    let Ok(text) = std::fs::read_to_string(path) else { return 2 };
+    let Ok(case) = serde_json::from_str::<Value>(&text) else { return 2 };
+    // (TOTAL_STACK: development aid for measuring how much stack a case needs)
+    let stack = std::env::var("TOTAL_STACK").ok().and_then(|s| s.parse().ok()).unwrap_or(STACK);
+    let h = std::thread::Builder::new().stack_size(stack).spawn(move || one_inner(&case)).expect("spawn");
+    h.join().unwrap_or(2)
+}
+
+fn one_inner(case: &Value) -> i32 {
+    let strs = |k: &str| -> Vec<String> { case[k].as_array().map(|a| a.iter().filter_map(|x| x.as_str().map(|s| s.to_string())).collect()).unwrap_or_default() };
+    let verdict = match case["section"].as_str() {
+        Some("A") => {
+            let name = case["prelude"].as_str().unwrap_or("");
+            let Some(pr) = xcorpus::preludes().into_iter().find(|p| p.name == name) else { return 2 };
+            let base = base_of(build_prelude(&pr, &mut vec![]));
+            let stmts = strs("statements");
+            let qs: Vec<&str> = stmts.iter().map(|s| s.as_str()).collect();
+            let mut outs = vec![];
+            let v = run_statements(&base, &qs, &mut outs);
+            for (q, o) in qs.iter().zip(&outs) {
+                println!("  {} => {}", vcore::util::trunc(q, 200), o.brief());
+            }
+            v
+        }
+        Some("B") => {
+            let sp = C24::new(if case["thorough"].as_bool().unwrap_or(false) { "thorough" } else { "quick" });
+            let sql = match &case["sql"] {
+                Value::String(s) => s.clone(),
+                v => {
+                    let Some(t) = xcorpus::TEMPLATES.iter().position(|t| Some(t.0) == v["template"].as_str()) else { return 2 };
+                    let subs: Vec<(usize, usize)> = v["subs"]
+                        .as_array()
+                        .map(|a| a.iter().filter_map(|x| Some((x[0].as_u64()? as usize, sp.hostile.iter().position(|h| Some(h.0) == x[1].as_str())?))).collect())
+                        .unwrap_or_default();
+                    sp.fill(t, &subs)
+                }
+            };
+            let base = base_of(build_prelude(&xcorpus::hostile_prelude(), &mut vec![]));
+            let mut outs = vec![];
+            let v = run_statements(&base, &[&sql], &mut outs);
+            println!("  {} => {}", vcore::util::trunc(&sql, 300), outs.first().map(|o| o.brief()).unwrap_or_default());
+            v
+        }
+        Some("C1") => {
+            let Some(ty) = case["type"].as_str().and_then(parse_ty) else { return 2 };
+            let ops: Vec<i64> = strs("operands").iter().filter_map(|s| s.parse().ok()).collect();
+            let g = |i: usize| ops.get(i).copied().unwrap_or(0);
+            let form = case["form"].as_str().unwrap_or("");
+            let (o, v) = arith_case(ty, case["path"].as_str().unwrap_or(""), form, g(0), g(1), g(2));
+            println!("  {} over {:?} ({}, {} path) => {}; exact {}", form, ops, ty.name(), case["path"], o.brief(), form_exact(form, g(0), g(1), g(2)).0.map(|v| v.to_string()).unwrap_or_else(|| format!("{:e}", form_exact(form, g(0), g(1), g(2)).1)));
+            v
+        }
+        Some("D") => {
+            let Some(pr) = xcorpus::preludes().into_iter().find(|p| p.name == "basic") else { return 2 };
+            let base = base_of(build_prelude(&pr, &mut vec![]));
+            let stmts = deep_sql(case["shape"].as_str().unwrap_or(""), case["size"].as_u64().unwrap_or(0) as usize);
+            let qs: Vec<&str> = stmts.iter().map(|s| s.as_str()).collect();
+            let mut outs = vec![];
+            let v = run_statements(&base, &qs, &mut outs);
+            for (q, o) in qs.iter().zip(&outs) {
+                println!("  {} ({} bytes) => {}", vcore::util::trunc(q, 100), q.len(), o.brief());
+            }
+            v
+        }
+        Some("prelude") => {
+            let mut problems = vec![];
+            for p in xcorpus::preludes().iter().chain(std::iter::once(&xcorpus::hostile_prelude())) {
+                build_prelude(p, &mut problems);
+            }
+            problems.iter().find(|p| p.starts_with("PANIC ")).map(|p| ("panic", p.clone()))
+        }
+        Some("C2") => {
+            let Some(ty) = case["type"].as_str().and_then(parse_ty) else { return 2 };
+            let vals: Vec<i64> = strs("values").iter().filter_map(|s| s.parse().ok()).collect();
+            let (seen, v) = agg_case(ty, case["path"].as_str().unwrap_or(""), &vals);
+            println!("  SUM/AVG over {:?} ({}, {} path) => {:?}; exact sum {}", vals, ty.name(), case["path"], seen, vals.iter().map(|v| *v as i128).sum::<i128>());
+            v
+        }
+        _ => return 2,
+    };
+    match verdict {
+        Some((fate, what)) => {
+            println!("  {}: {}", fate, what);
+            1
+        }
+        None => 0,
+    }
 }
